@@ -1,15 +1,74 @@
 import IsoMdl.Lemmas.Session
+import IsoMdl.Generated.StateStructs
 /-
 C14 — Serialized session state resumes the session transparently.
 In the session model a restore (stringify followed by parse) is an explicit operation of the
-alphabet.  The model's restore keeps every field of the state (keys/session id, both counters,
-the state variant with pending documents, attached signatures and prepared response); these
-theorems say that then no later observation can differ, for restores at ANY subset of step
-boundaries.  That the real `Stringify` keeps every field is what the twin-run correspondence
-checks on the real objects (clone vs. stringify→parse copy, all later outputs byte for byte,
-plus the stringify fixed point).
+alphabet: `World.step .restoreDevice` runs the state through the serde layer of
+Model/StateCodec.lean (one map entry per serialised field of the real struct, under the real field
+names) and back.  First part: the codec loses nothing (`C14_parse_stringify_*`, for EVERY state;
+the base64 and CBOR byte layers included), and it has exactly the fields, order and enum variants
+that the source declares (`C14_state_fields_match_source`, against `Generated/StateStructs.lean`,
+re-extracted from src/presentation/{device,reader}.rs on every run).  Second part: restores at ANY
+subset of step boundaries of ANY history change no later observation.  That the CONTENT of the
+real fields (keys, transcript, documents, prepared COSE structures) survives is what the twin-run
+correspondence checks on the real objects (clone vs. stringify→parse copy, all later outputs byte
+for byte, plus the stringify fixed point).
 -/
 namespace IsoMdl.Session
+
+section Codec
+open IsoMdl.StateCodec
+
+/-- base64 layer, for ALL byte strings -/
+theorem C14_base64_roundtrip (bs : Bytes) : b64Decode (b64Encode bs) = some bs := b64_roundtrip bs
+
+/-- serde layer, for EVERY abstract device / reader state: counters, state variant, documents still
+to sign, signatures already attached and a staged response are all written and read back -/
+theorem C14_serde_roundtrip (d : Device) (r : Reader) :
+    devOfCbor (devToCbor d) = some d ∧ rdrOfCbor (rdrToCbor r) = some r :=
+  ⟨devOfCbor_toCbor d, rdrOfCbor_toCbor r⟩
+
+/-- all three layers: `parse (stringify x) = x` for every state whose numbers fit a CBOR head -/
+theorem C14_parse_stringify_device (d : Device) (h : DeviceB d) : devParse (devStringify d) = some d :=
+  devParse_stringify d (wf_device d h)
+
+theorem C14_parse_stringify_reader (r : Reader) (h : ReaderB r) : rdrParse (rdrStringify r) = some r :=
+  rdrParse_stringify r (wf_reader r h)
+
+/-- serialising is deterministic and injective on states: two states with the same stored form are
+the same state (nothing of the state is left out of the stored form) -/
+theorem C14_stored_form_injective (d d' : Device) (h : devToCbor d = devToCbor d') : d = d' := by
+  have := devOfCbor_toCbor d
+  rw [h, devOfCbor_toCbor d'] at this
+  exact (Option.some.inj this).symm
+
+/-- THE CODEC IS THE SOURCE'S: the stored form of the device session manager, of a prepared
+response and of the reader session manager has exactly the fields the structs declare, in
+declaration order, none of them carrying a serde attribute (skip / rename / default / with);
+`State` has exactly the three variants the codec writes, with the same names and arities. -/
+theorem C14_state_fields_match_source (d : Device) (r : Reader) (p : List Nat) (sg : List (Nat × Nat)) (st : Nat) :
+    Generated.stateStructs =
+      [("device::SessionManager".toList.map (·.toNat), (fieldNames (devToCbor d)).map (·, true)),
+       ("device::PreparedDeviceResponse".toList.map (·.toNat), (fieldNames (encPrepared p sg st)).map (·, true)),
+       ("reader::SessionManager".toList.map (·.toNat), (fieldNames (rdrToCbor r)).map (·, true))] ∧
+    Generated.stateEnum = [("AwaitingRequest".toList.map (·.toNat), 0), ("Signing".toList.map (·.toNat), 1),
+                           ("ReadyToRespond".toList.map (·.toNat), 1)] ∧
+    encState .awaiting = tx "AwaitingRequest" ∧
+    (∃ v, encState (.signing p sg st) = .map [(tx "Signing", v)]) ∧
+    (∀ m, ∃ v, encState (.ready m) = .map [(tx "ReadyToRespond", v)]) := by
+  refine ⟨?_, by decide +kernel, rfl, ⟨_, rfl⟩, fun m => ⟨_, rfl⟩⟩
+  simp only [devToCbor, rdrToCbor, encPrepared, fieldNames, List.filterMap_cons, List.filterMap_nil, tx]
+  decide +kernel
+
+/-- non-vacuity: a device in the middle of signing, with numbers at the edge of what a CBOR head
+holds, goes through all three layers -/
+example : DeviceB ⟨2^64 - 1, 4294967295, 7, .signing [3, 1] [(2, 2^64 - 1)] 0⟩ := by
+  simp [DeviceB, StateB, NatsB, PairsB]
+example : devParse (devStringify ⟨5, 4294967295, 7, .ready (.ct false 5 9 (.response 0 [(2, 70)]) false)⟩) =
+    some ⟨5, 4294967295, 7, .ready (.ct false 5 9 (.response 0 [(2, 70)]) false)⟩ :=
+  C14_parse_stringify_device _ (by simp [DeviceB, StateB, MsgB, PayloadB, PairsB])
+
+end Codec
 
 def Op.isRestore : Op → Bool
   | .restoreDevice => true
@@ -17,7 +76,7 @@ def Op.isRestore : Op → Bool
   | _ => false
 
 theorem step_restore (w : World) (op : Op) (h : op.isRestore = true) : w.step op = w := by
-  cases op <;> first | rfl | cases h
+  cases op <;> first | exact step_restoreDevice w | exact step_restoreReader w | cases h
 
 /-- Restores inserted at any subset of boundaries of any history change nothing: the run with
 them equals the run without them (whole state: both roles, counters, pending signing progress,
